@@ -14,8 +14,8 @@ Record pol := mkPol {
   pl_tokens : nat;              (* handle_token invocations so far *)
   pl_events : list token        (* reversed *)
 }.
-(* seeds from 100000 on select the capture-everything policy (used for the C03 reference comparison) *)
-Definition policy_flags (k : nat) : N := if (100000 <=? N.of_nat k)%N then 31%N else if k mod 3 =? 0 then 0%N else N.of_nat ((k * 37 + 11) mod 32).
+(* seeds from 2000 on select the capture-everything policy (used for the C03 reference comparison) *)
+Definition policy_flags (k : nat) : N := if (2000 <=? N.of_nat k)%N then 31%N else if k mod 3 =? 0 then 0%N else N.of_nat ((k * 37 + 11) mod 32).
 Definition pol_bump (p : pol) : pol :=
   mkPol (S p.(pl_counter)) p.(pl_seed) p.(pl_fail_at) p.(pl_remove) p.(pl_bail_text) p.(pl_end_text) p.(pl_tokens) p.(pl_events).
 
